@@ -130,6 +130,29 @@ def refkinds():
     return _REFKINDS
 
 
+class StmtText(str):
+    """Unparsed text of a function in which a needle that is a whole simple statement (`a = b`, `a += b`) only matches a whole
+    statement: `x = len(t)` is not "in" a function that says `x = len(t) - 1` (one simple statement per line in ast.unparse)."""
+    def __contains__(self, needle):
+        if isinstance(needle, str) and (' = ' in needle or ' += ' in needle or ' -= ' in needle) and not needle.rstrip().endswith(':') \
+                and '\n' not in needle:
+            start = 0
+            while True:
+                i = str.find(self, needle, start)
+                if i < 0:
+                    return False
+                j = i + len(needle)
+                before_ok = i == 0 or self[i - 1] in ' \n\t'
+                if before_ok and (j == len(self) or self[j] == '\n'):
+                    return True
+                start = i + 1
+        return str.__contains__(self, needle)
+
+
+def TU(node):
+    return StmtText(U(node))
+
+
 def refidents():
     """every identifier (name, attribute, parameter) of the reference tree - what is NOT in here is new"""
     if not hasattr(refidents, '_c'):
